@@ -118,6 +118,13 @@ func genC10(rng *hx.Rng, tier string, w *hx.Writer) error {
 						}
 						w.Put(hx.Case{Entry: "bn", Op: 30 + op, Args: args, Impl: hx.Z(got), Oracle: oracle,
 							Tags: []string{"gfp-" + []string{"add", "sub", "neg", "mul"}[op], ptag, "nt"}})
+						// the same call against the program translated from gfp.s (T1) under the machine model
+						aop := op
+						if op == 3 && bmi {
+							aop = 4
+						}
+						w.Put(hx.Case{Entry: "asm", Op: aop, Args: args, Impl: hx.Z(got), Oracle: oracle,
+							Tags: []string{"asm-" + []string{"add", "sub", "neg", "mul", "mulx"}[aop], ptag, "nt"}})
 					}
 				}
 			}
@@ -131,6 +138,12 @@ func genC10(rng *hx.Rng, tier string, w *hx.Writer) error {
 					}
 					w.Put(hx.Case{Entry: "bn", Op: 33, Args: hx.L(hx.Z(a), hx.Z(b)), Impl: hx.Z(got), Oracle: oracle,
 						Tags: []string{"gfp-mul-unreduced", ptag, "nt"}})
+					aop := 3
+					if bmi {
+						aop = 4
+					}
+					w.Put(hx.Case{Entry: "asm", Op: aop, Args: hx.L(hx.Z(a), hx.Z(b)), Impl: hx.Z(got), Oracle: oracle,
+						Tags: []string{"asm-mul-unreduced", ptag, "nt"}})
 				}
 				got := fromLimbs(bn256.VerifGfp(4, toLimbs(a), [4]uint64{}))
 				want := new(big.Int).Mod(new(big.Int).Mul(a, bigR), p)
